@@ -2,9 +2,14 @@ package checks
 
 import (
 	"bytes"
+	"encoding/json"
 	"fmt"
+	"os"
+	"os/exec"
 	"reflect"
 	"runtime"
+	"strconv"
+	"strings"
 	"sync"
 	"sync/atomic"
 	"time"
@@ -22,12 +27,12 @@ import (
 func init() {
 	register(&Check{
 		ID:   "C08",
-		Rule: "case = one concurrent episode: 50-85 fresh dynamic types in families that nest one another three levels deep (so that registration runs top-down and bottom-up at once) are used for the very first time by 2-6 goroutines each, released by a barrier with seeded 0-50us staggering, through EncodedSize / EncodeObject / DecodeObject with pointer and by-value arguments, while steady-state goroutines hammer already registered dynamic and static types; 16-48 goroutines, GOMAXPROCS in {2,4,16}; the yield hooks (before the registration lock, between the two descriptor-slot stores, after the prefetch-cache insert, before the slot publication) sleep 0-200us or Gosched under a seeded schedule. Oracles: Go race detector (race build; any DATA RACE block is a violation, de-duplicated by the functions of its stacks), every call's result equals the sequential reference result, no panic, no crash, bounded-wait progress (no completed operation for 120 s with idle CPU = deadlock). Descriptor-slot collisions (type address & 0xffff) are counted. distinct = distinct (seed, case) episode; non-trivial = at least 20 fresh types were first-used by >=2 goroutines concurrently",
+		Rule: "case = one concurrent episode: 50-85 fresh dynamic types in families that nest one another three levels deep (so that registration runs top-down and bottom-up at once) are used for the very first time by 2-6 goroutines each, released by a barrier with seeded 0-50us staggering, through EncodedSize / EncodeObject / DecodeObject with pointer and by-value arguments, while steady-state goroutines hammer already registered dynamic and static types; 16-48 goroutines, GOMAXPROCS in {2,4,16}; the yield hooks (before the registration lock, between the two descriptor-slot stores, after the prefetch-cache insert, before the slot publication) sleep 0-200us or Gosched under a seeded schedule. Oracles: Go race detector (race build; any DATA RACE block is a violation, de-duplicated by the functions of its stacks), every call's result equals the sequential reference result, no panic, no crash, bounded-wait progress (no completed operation for 120 s with idle CPU = deadlock). Every third case is a fresh sub-process in which the members of the static cyclic families (MutA/B/C, Ring1/2/3, Tree/TreeMeta, PV/VV, Node*, Defs*) are first-used simultaneously by different goroutines. Descriptor-slot collisions (type address & 0xffff) are counted. distinct = distinct (seed, case) episode; non-trivial = at least 20 fresh types were first-used by >=2 goroutines concurrently",
 		Plan: func(tier string) []BuildPlan {
 			if tier == "thorough" {
 				return []BuildPlan{{"race", 400}, {"plain", 800}, {"checkptr", 200}}
 			}
-			return []BuildPlan{{"race", 32}, {"plain", 48}}
+			return []BuildPlan{{"race", 36}, {"plain", 48}}
 		},
 		Run: runC08,
 		Assumptions: []string{"schedules are sampled, not enumerated; the race detector reports only pairs of accesses that actually executed"},
@@ -125,6 +130,10 @@ func (it *c08Item) use(op int) string {
 var c08Steady []*c08Item
 
 func runC08(c *harness.Ctx, idx int) {
+	if idx%3 == 2 {
+		runC08Cyc(c, idx)
+		return
+	}
 	r := c.Rand(idx)
 	procs := []int{2, 4, 16}[idx%3]
 	old := runtime.GOMAXPROCS(procs)
@@ -372,3 +381,140 @@ func firstWordsOf(m string) string {
 }
 
 func bytesContains(s, sub string) bool { return bytes.Contains([]byte(s), []byte(sub)) }
+
+// ---------------------------------------------------------------------------
+// cyclic static families: their very first use happens once per process, so
+// these episodes run in fresh sub-processes (spec "c08cyc|seed|idx").
+
+var c08Families = [][]interface{}{
+	{&zoo.MutA{}, &zoo.MutB{}, &zoo.MutC{}},
+	{&zoo.Ring1{}, &zoo.Ring2{}, &zoo.Ring3{}},
+	{&zoo.Tree{}, &zoo.TreeMeta{}},
+	{&zoo.PV{}, &zoo.VV{}},
+	{&zoo.Node{}, &zoo.NodeU{}, &zoo.NodeOld{}},
+	{&zoo.Defs2{}, &zoo.Defs{}, &zoo.UnknownNest{}, &zoo.WithUnknown{}},
+}
+
+type c08CycResult struct {
+	Violations []string `json:"violations"`
+	Ops        int      `json:"ops"`
+	Yields     uint64   `json:"yields"`
+}
+
+func runC08Cyc(c *harness.Ctx, idx int) {
+	c.Describe("cyclic-family first-use episode in a fresh process (replay: vworker -sub 'c08cyc|%d|%d')", c.Seed, idx)
+	c.Hint("cyclic")
+	c.Tag("episode:cyclic-families-subprocess")
+	c.Shape(fmt.Sprint("cyc", c.Seed, idx))
+	c.NonTrivial()
+	exe, _ := os.Executable()
+	cmd := exec.Command(exe, "-sub", fmt.Sprintf("c08cyc|%d|%d", c.Seed, idx))
+	var out, errb bytes.Buffer
+	cmd.Stdout, cmd.Stderr = &out, &errb
+	err := cmd.Run()
+	var res c08CycResult
+	if jerr := json.Unmarshal(out.Bytes(), &res); err != nil || jerr != nil {
+		es := errb.String()
+		class := "died"
+		for _, p := range []string{"DATA RACE", "concurrent map", "checkptr", "unexpected fault address", "SIGSEGV", "nil pointer", "panic:"} {
+			if strings.Contains(es, p) {
+				class = strings.ReplaceAll(p, " ", "-")
+				break
+			}
+		}
+		c.Violation("child-died", "C08/cyclic-child-died/"+class, "fresh-process episode died (%v): %s", err, clipStr(es, 2500))
+		return
+	}
+	for _, v := range res.Violations {
+		c.Violation("result", "C08/cyclic/"+firstWordsOf(v), "%s", v)
+	}
+	c.Count("operations", int64(res.Ops))
+	c.Count("yield_calls", int64(res.Yields))
+	c.Sample(map[string]interface{}{"episode": "cyclic families, fresh process", "ops": res.Ops, "yields": res.Yields})
+}
+
+// RunSubC08Cyc: every family's members are first-used at the same time by
+// different goroutines (each member by two goroutines, different entry points).
+func RunSubC08Cyc(spec string) {
+	parts := strings.Split(spec, "|")
+	seed, _ := strconv.ParseUint(parts[1], 10, 64)
+	idx, _ := strconv.Atoi(parts[2])
+	r := gen.For(seed, "C08cyc", idx)
+	res := &c08CycResult{}
+	var ycount atomic.Uint64
+	yseed := r.Uint64()
+	frugal.VerifSetHooks(&frugal.VerifHooks{Yield: func(point int) {
+		n := ycount.Add(1)
+		z := (n + yseed) * 0x9e3779b97f4a7c15
+		z ^= z >> 29
+		switch z % 3 {
+		case 0:
+			time.Sleep(time.Duration(z>>8%400) * time.Microsecond)
+		case 1:
+			runtime.Gosched()
+		}
+	}})
+	var mu sync.Mutex
+	note := func(format string, a ...interface{}) {
+		mu.Lock()
+		if len(res.Violations) < 10 {
+			res.Violations = append(res.Violations, fmt.Sprintf(format, a...))
+		}
+		mu.Unlock()
+	}
+	var ops atomic.Int64
+	for _, fi := range r.Perm(len(c08Families)) {
+		fam := c08Families[fi]
+		var items []*c08Item
+		for _, z := range fam {
+			vc := gen.DefaultValCfg()
+			vc.MaxDepth = 4
+			vc.Budget = 40
+			s := gen.Zoo(z)
+			it := &c08Item{s: s, v: gen.NewValue(r, s, vc)}
+			want := ref.Encode(s, it.v.Elem())
+			it.size = len(want)
+			it.canon = mustCanon(want)
+			it.msg = want
+			exp := reflect.New(s.Go)
+			if _, info, err := ref.Decode(s, it.msg, exp.Elem()); err != nil || info.DupKey {
+				it.msg = nil
+			} else {
+				it.decoded = ref.Canon(s, exp.Elem(), ref.CmpOpts{})
+			}
+			items = append(items, it)
+		}
+		start := make(chan struct{})
+		var wg sync.WaitGroup
+		for gi := 0; gi < 3*len(items); gi++ {
+			it := items[gi%len(items)]
+			op := r.Intn(5)
+			spin := r.Intn(200)
+			wg.Add(1)
+			go func() {
+				defer wg.Done()
+				<-start
+				for t0 := time.Now(); time.Since(t0) < time.Duration(spin)*time.Microsecond; {
+				}
+				for k := 0; k < 3; k++ {
+					if m := it.use(op + k); m != "" {
+						note("concurrent first use of %s (family %d, op %d): %s", it.s.Name, fi, (op+k)%5, m)
+					}
+					ops.Add(1)
+				}
+			}()
+		}
+		close(start)
+		done := make(chan struct{})
+		go func() { wg.Wait(); close(done) }()
+		select {
+		case <-done:
+		case <-time.After(120 * time.Second):
+			buf := make([]byte, 1<<18)
+			note("no-progress: goroutines still blocked after 120 s\n%s", buf[:runtime.Stack(buf, true)])
+		}
+	}
+	res.Ops = int(ops.Load())
+	res.Yields = ycount.Load()
+	json.NewEncoder(os.Stdout).Encode(res)
+}
